@@ -232,7 +232,7 @@ func caseLit(c Case, out graph.Layout, snaps []autog.VerifSnap, crossings []int)
 	case "bk0", "bk1", "bk2", "bk3":
 		bk = int(c.P4[2] - '0')
 	}
-	fmt.Fprintf(&b, "(mkOptions %s %s %s %s %d 4 %s %s %s) true %s [", p1, p2, p4, p5, th, qlit(c.NodeSpacing), qlit(c.LayerSpacing), boolLit(c.VirtualOut), zlit(bk))
+	fmt.Fprintf(&b, "(mkOptions %s %s %s %s %d 4 %s %s %s) %s %s [", p1, p2, p4, p5, th, qlit(c.NodeSpacing), qlit(c.LayerSpacing), boolLit(c.VirtualOut), boolLit(c.P3 != "noop"), zlit(bk))
 	for i, s := range snaps {
 		if i > 0 {
 			b.WriteString(";\n   ")
